@@ -80,15 +80,9 @@ where
 		}
 		None => w.parent_key_id(),
 	};
-	// Don't do this multiple times
-	let tx = updater::retrieve_txs(
-		&mut *w,
-		None,
-		Some(ret_slate.id),
-		None,
-		Some(&parent_key_id),
-		use_test_rng,
-	)?;
+	// Don't do this multiple times (in whichever of the wallet's accounts the earlier delivery
+	// was booked: the payment is one and the same, and its sender can complete only one reply)
+	let tx = updater::retrieve_txs(&mut *w, None, Some(ret_slate.id), None, None, use_test_rng)?;
 	for t in &tx {
 		// (a reverted entry is a received transaction whose block was reorganised away: it
 		// is still the same payment, and is confirmed again when it is mined again)
